@@ -367,6 +367,12 @@ impl Scenario for C13 {
         for bk in &nodes {
             for (artifact, hdr) in [(Artifact::Lid, ".lid."), (Artifact::Pid, ".pid."), (Artifact::Sid, ".sid.")] {
                 let a = crate::prng::Rng::new(b.ev_seed()).bytes(33);
+                // ids differing in exactly one byte, at every byte position
+                for at in 0..33 {
+                    let mut c = a.clone();
+                    c[at] ^= 1 << b.rng.below(8);
+                    b.push(Step::IdRel { reader: *bk, a: TextRef::Lit { text: format!("k{f}{hdr}{}", b64(&a)) }, b: TextRef::Lit { text: format!("k{f}{hdr}{}", b64(&c)) } });
+                }
                 let mut c = a.clone();
                 let at = b.rng.usize_below(33);
                 c[at] ^= 1 << b.rng.below(8);
@@ -525,6 +531,22 @@ impl Scenario for C04 {
                         Kind::Local => b.push(Step::Deliver { tok: tok_l, node, key: slot, purpose: None, faults: vec![], pk: None, fk: None, validator: VSpec::None, alias: false, now_ns: now, pair_with: None }),
                         _ => 0,
                     };
+                }
+            }
+        }
+        // multi-byte characters at every character position of the header region of a valid-looking text
+        for (node, bk) in nodes.iter().enumerate() {
+            let _ = node;
+            for art in Artifact::ALL {
+                let ver = if art.is_token() { "v" } else { "k" };
+                let body = b64(&crate::prng::Rng::new(b.ev_seed()).bytes(33));
+                let text = format!("{ver}{f}{}{body}", art.header());
+                let hl = 2 + art.header().len();
+                for at in 0..hl + 3 {
+                    for ch in ['é', '€', '\u{1F600}'] {
+                        b.push(Step::Offer { text: TextRef::Lit { text: text.clone() }, faults: vec![TokFault::TextReplace { at, ch }], reader: *bk, artifact: art, expect: None, why: String::new() });
+                        b.push(Step::Offer { text: TextRef::Lit { text: text.clone() }, faults: vec![TokFault::TextInsert { at, ch }], reader: *bk, artifact: art, expect: None, why: String::new() });
+                    }
                 }
             }
         }
@@ -687,6 +709,11 @@ impl Scenario for C09 {
             for n in 1..=3 {
                 offer(&mut b, t, vec![TokFault::TextPad { n }]);
             }
+            // one more alphabet character: appended, and inserted somewhere in the last blocks
+            for ch in "ABCDEFGHIJKLMNOPQRSTUVWXYZabcdefghijklmnopqrstuvwxyz0123456789-_".chars() {
+                offer(&mut b, t, vec![TokFault::TextInsert { at: usize::MAX, ch }]);
+                offer(&mut b, t, vec![TokFault::TextInsert { at: usize::MAX, ch }, TokFault::TextInsert { at: usize::MAX, ch }]);
+            }
             offer(&mut b, t, vec![TokFault::TextStdAlphabet]);
             for which in 0..2u8 {
                 for bits in 1..16u8 {
@@ -704,6 +731,12 @@ impl Scenario for C09 {
             offer(&mut b, t, vec![TokFault::TextHeaderCase]);
             offer(&mut b, t, vec![TokFault::TextTrailingDot]);
             offer(&mut b, t, vec![TokFault::TextTrailingDot, TokFault::TextTrailingDot]);
+            for at in 0..(2 + art.header().len() + 3) {
+                for ch in ['é', '€', '\u{1F600}', ' '] {
+                    offer(&mut b, t, vec![TokFault::TextReplace { at, ch }]);
+                    offer(&mut b, t, vec![TokFault::TextInsert { at, ch }]);
+                }
+            }
             // header surgery: version ("k4"/"v4") is 2 chars, then the kind header incl. both dots
             let hl = art.header().len();
             for (at, n) in [(0usize, 2usize), (2, hl), (2, hl - 1), (3, hl - 1), (0, 2 + hl), (2, 1), (1, 1), (0, 1)] {
